@@ -214,8 +214,8 @@ def run(ctx):
     # scored under exactly the selected parameters (harness/ops_ref.c refsp, the reading S_T of the reference DP)
     from props import c07 as _c07
     ml, mmeta = [], []
-    for j in range(150 if ctx.quick else 1500):
-        d = _c07.marginal_dovetail(rng, overrides=rng.random() < 0.6)
+    for j in range(240 if ctx.quick else 2400):
+        d = _c07.marginal_dovetail(rng, overrides=rng.random() < 0.6) if j % 3 else _c07.staggered_pair(rng, overrides=rng.random() < 0.6)
         alpha_ = gen.AA if d["kind"] == "protein" else (gen.RNA if d["kind"] == "rna" else gen.DNA)
 
         def member(q):
